@@ -37,7 +37,7 @@ def diskDecls : List (String × String) :=
    ("func MemDisk.ReadTo", "func (d MemDisk) (a uint64, buf Block) { d.l.RLock() defer d.l.RUnlock() if a >= uint64(len(d.blocks)) { panic(‹fmt›.Errorf(\"out-of-bounds read at %v\", a)) } copy(buf, d.blocks[a][:]) }"),
    ("func MemDisk.Size", "func (d MemDisk) () uint64 { return uint64(len(d.blocks)) }"),
    ("func MemDisk.Write", "func (d MemDisk) (a uint64, v Block) { if uint64(len(v)) != BlockSize { panic(‹fmt›.Errorf(\"v is not block-sized (%d bytes)\", len(v))) } d.l.Lock() defer d.l.Unlock() if a >= uint64(len(d.blocks)) { panic(‹fmt›.Errorf(\"out-of-bounds write at %v\", a)) } copy(d.blocks[a][:], v) }"),
-   ("func NewFileDisk", "func (path string, numBlocks uint64) (FileDisk, error) { fd, err := ‹golang.org/x/sys/unix›.Open(path, ‹golang.org/x/sys/unix›.O_RDWR|‹golang.org/x/sys/unix›.O_CREAT, 0666) if err != nil { return FileDisk{}, err } var stat ‹golang.org/x/sys/unix›.Stat_t err = ‹golang.org/x/sys/unix›.Fstat(fd, &stat) if err != nil { return FileDisk{}, err } if (stat.Mode&‹golang.org/x/sys/unix›.S_IFREG) != 0 && uint64(stat.Size) != numBlocks*BlockSize { err = ‹golang.org/x/sys/unix›.Ftruncate(fd, int64(numBlocks*BlockSize)) if err != nil { return FileDisk{}, err } } return FileDisk{fd, numBlocks}, nil }"),
+   ("func NewFileDisk", "func (path string, numBlocks uint64) (FileDisk, error) { if numBlocks > ‹math›.MaxInt64/BlockSize { return FileDisk{}, ‹fmt›.Errorf(\"disk of %d blocks is too large\", numBlocks) } fd, err := ‹golang.org/x/sys/unix›.Open(path, ‹golang.org/x/sys/unix›.O_RDWR|‹golang.org/x/sys/unix›.O_CREAT, 0666) if err != nil { return FileDisk{}, err } var stat ‹golang.org/x/sys/unix›.Stat_t err = ‹golang.org/x/sys/unix›.Fstat(fd, &stat) if err != nil { return FileDisk{}, err } if (stat.Mode&‹golang.org/x/sys/unix›.S_IFREG) != 0 && uint64(stat.Size) != numBlocks*BlockSize { err = ‹golang.org/x/sys/unix›.Ftruncate(fd, int64(numBlocks*BlockSize)) if err != nil { return FileDisk{}, err } } return FileDisk{fd, numBlocks}, nil }"),
    ("func NewMemDisk", "func (numBlocks uint64) MemDisk { blocks := make([][BlockSize]byte, numBlocks) return MemDisk{l: new(‹sync›.RWMutex), blocks: blocks} }"),
    ("func Read", "func (a uint64) Block { return implicitDisk.Read(a) }"),
    ("func Size", "func () uint64 { return implicitDisk.Size() }"),
@@ -67,7 +67,7 @@ def diskCalls : List (String × String) :=
    ("MemDisk.ReadTo", "fmt.Errorf(_,_)"),
    ("MemDisk.Size", ""),
    ("MemDisk.Write", "fmt.Errorf(_,_) ; fmt.Errorf(_,_)"),
-   ("NewFileDisk", "golang.org/x/sys/unix.Open(_,66,438) ; golang.org/x/sys/unix.Fstat(_,_) ; golang.org/x/sys/unix.Ftruncate(_,_)"),
+   ("NewFileDisk", "fmt.Errorf(_,_) ; golang.org/x/sys/unix.Open(_,66,438) ; golang.org/x/sys/unix.Fstat(_,_) ; golang.org/x/sys/unix.Ftruncate(_,_)"),
    ("NewMemDisk", ""),
    ("Read", ""),
    ("Size", ""),
